@@ -129,6 +129,53 @@ fn duplicates() -> Vec<(&'static str, &'static str)> {
     ]
 }
 
+/// nested matches on two enum-typed variables: the word gives the scrutinee of each level (each level
+/// sits in the first arm of the one above). The Go type switch of a level rebinds its variable's
+/// identifier inside its cases; a deeper match on the same variable needs the enum-typed one.
+fn rebinding_words() -> Vec<String> {
+    let mut out = vec!["x".to_string()];
+    let mut frontier = vec!["x".to_string()];
+    for _ in 0..3 {
+        let mut next = Vec::new();
+        for w in &frontier {
+            for c in ["x", "y"] {
+                next.push(format!("{}{}", w, c));
+            }
+        }
+        out.extend(next.iter().cloned());
+        frontier = next;
+    }
+    out
+}
+
+/// (source, expected output) for one word; `in_closure`: the innermost level sits in a closure that is
+/// called at once
+fn rebinding_program(word: &str, in_closure: bool) -> (String, String) {
+    let levels: Vec<char> = word.chars().collect();
+    let n = levels.len();
+    // innermost value
+    let mut body = "1".to_string();
+    for (i, c) in levels.iter().enumerate().rev() {
+        let level = i + 1;
+        let inner = if in_closure && i == n - 1 && n > 1 { format!("{{ let thunk = || {}; thunk() }}", body) } else { body.clone() };
+        body = if *c == 'x' {
+            format!("match x {{ Color::Red => {}, Color::Green(n{l}) => n{l} + {k} }}", inner, l = level, k = level * 100)
+        } else {
+            format!("match y {{ Mode::Fast => {}, Mode::Slow(m{l}) => m{l} + {k} }}", inner, l = level, k = level * 100)
+        };
+    }
+    let src = format!(
+        "enum Color {{ Red, Green(int32) }}\nenum Mode {{ Fast, Slow(int32) }}\nfn pick(x: Color, y: Mode) -> int32 {{\n    {}\n}}\nfn main() {{\n    string_println(int32_to_string(pick(Color::Red, Mode::Fast)));\n    string_println(int32_to_string(pick(Color::Green(5), Mode::Fast)));\n    string_println(int32_to_string(pick(Color::Red, Mode::Slow(7))));\n    string_println(int32_to_string(pick(Color::Green(5), Mode::Slow(7))))\n}}\n",
+        body
+    );
+    let first_y = levels.iter().position(|c| *c == 'y');
+    let red_slow = match first_y {
+        Some(j) => 7 + (j as i64 + 1) * 100,
+        None => 1,
+    };
+    (src, format!("1\n105\n{}\n105\n", red_slow))
+}
+
 pub struct NamesFamily;
 
 fn run_text(ctx: &mut Ctx, text: &str) -> Result<Obs, (String, String)> {
@@ -177,7 +224,7 @@ impl Family for NamesFamily {
         &["C19", "C02", "C04"]
     }
     fn rule(&self) -> &'static str {
-        "90 hostile identifiers (Go keywords that goml allows, predeclared identifiers, runtime helper names, the builtins expanded at their call sites, compiler temporaries, generated type/helper names, spellings of the compiler's own type representation, the entry point's names, mangling look-alikes such as a__0) x 17 roles (fn / struct / variant of an imported package, fn, param, local, pattern variable, closure parameter, struct, field, enum, variant, trait, method, type parameter, fn next to temporaries, fn called from a closure) plus 14 collision witnesses for generated names, plus 21 programs declaring two entities of one name in one namespace (functions, types, traits, parameters of functions/methods/impl methods, variants, fields, extern vs fn, methods of one impl) that must be rejected; oracle: emitted Go passes the Go checker and prints exactly what the twin with a benign identifier prints (= the hard-wired expected output). non-trivial = cases whose hostile name survives into the Go text unescaped or mangled; distinct = distinct source text"
+        "90 hostile identifiers (Go keywords that goml allows, predeclared identifiers, runtime helper names, the builtins expanded at their call sites, compiler temporaries, generated type/helper names, spellings of the compiler's own type representation, the entry point's names, mangling look-alikes such as a__0) x 17 roles (fn / struct / variant of an imported package, fn, param, local, pattern variable, closure parameter, struct, field, enum, variant, trait, method, type parameter, fn next to temporaries, fn called from a closure) plus 14 collision witnesses for generated names, plus 21 programs declaring two entities of one name in one namespace (functions, types, traits, parameters of functions/methods/impl methods, variants, fields, extern vs fn, methods of one impl) that must be rejected, plus 29 programs of nested matches on two enum-typed variables (every word of length <= 4 over {x, y} beginning with x as the scrutinees from the outside in; the innermost level also inside a closure called at once), whose Go type switches rebind the scrutinee's identifier inside their cases; oracle: emitted Go passes the Go checker and prints exactly what the twin with a benign identifier prints (= the hard-wired expected output). non-trivial = cases whose hostile name survives into the Go text unescaped or mangled; distinct = distinct source text"
     }
     fn cases(&self, _tier: Tier) -> Box<dyn Iterator<Item = Value> + '_> {
         let mut v = Vec::new();
@@ -191,6 +238,12 @@ impl Family for NamesFamily {
         }
         for (d, _) in duplicates() {
             v.push(json!({"kind": "duplicate", "name": d}));
+        }
+        for w in rebinding_words() {
+            v.push(json!({"kind": "rebinding", "name": w, "closure": false}));
+            if w.len() > 1 {
+                v.push(json!({"kind": "rebinding", "name": w, "closure": true}));
+            }
         }
         Box::new(v.into_iter())
     }
@@ -239,7 +292,11 @@ impl Family for NamesFamily {
             }
             return rep;
         }
-        let (text, expected, site) = if case["kind"] == "witness" {
+        let (text, expected, site) = if case["kind"] == "rebinding" {
+            let (w, c) = (case["name"].as_str().unwrap(), case["closure"].as_bool().unwrap_or(false));
+            let (t, e) = rebinding_program(w, c);
+            (t, e, format!("rebinding={}{}", w, if c { ";innermost-in-closure" } else { "" }))
+        } else if case["kind"] == "witness" {
             let name = case["name"].as_str().unwrap();
             let (_, t, e) = witnesses().into_iter().find(|(n, _, _)| *n == name).unwrap();
             (t.to_string(), e.to_string(), format!("witness={}", name))
